@@ -23,6 +23,7 @@ type vinfo struct {
 }
 
 type fsig struct {
+	mutates bool // writes a global scalar (directly or through a callee): only called where no earlier operand of the same statement reads a variable
 	name    string
 	params  []string
 	results []string
@@ -43,6 +44,7 @@ type gen struct {
 	small    bool // 32-bit friendly literals
 	funcBody bool
 	usedInFunc map[string]bool
+	mutates  bool
 }
 
 var pool = []string{"a", "b", "c", "x", "y", "z", "n", "m", "s", "t", "v", "w", "k", "p", "q"}
@@ -90,6 +92,9 @@ func (g *gen) declare(v *vinfo) {
 
 func (g *gen) varsOf(ty string, writable bool) []*vinfo {
 	out := []*vinfo{}
+	if writable && g.inFunc {
+		g.mutates = true // conservatively: a function that looks for a writable variable may pick a global
+	}
 	for _, sc := range g.scopes {
 		for _, v := range sc {
 			if v.ty == ty && (!writable || !v.ro) {
@@ -124,7 +129,7 @@ func (g *gen) intLit() N {
 func (g *gen) callsReturning(ty string) []fsig {
 	out := []fsig{}
 	for _, f := range g.funcs {
-		if len(f.results) == 1 && f.results[0] == ty {
+		if len(f.results) == 1 && f.results[0] == ty && !f.mutates {
 			out = append(out, f)
 		}
 	}
@@ -538,10 +543,16 @@ func (g *gen) stmts() []any {
 		}
 		f := g.funcs[g.r.Intn(len(g.funcs))]
 		call := g.callExpr(f, 2)
+		if f.mutates {
+			g.mutates = true
+		}
 		switch {
 		case len(f.results) == 0 || g.r.Intn(4) == 0:
 			return []any{N{"k": "expr", "e": call}}
 		case len(f.results) == 1:
+			if strings.HasPrefix(f.results[0], "[]") {
+				return []any{N{"k": "print", "args": []any{N{"k": "len", "e": call}}}}
+			}
 			return []any{N{"k": "print", "args": []any{call}}}
 		default:
 			// multi-value definition or assignment
@@ -687,6 +698,7 @@ func (g *gen) funcDef(globals []*vinfo) N {
 	g.usedInFunc = map[string]bool{}
 	g.scopes = [][]*vinfo{globals, {}}
 	g.inFunc = true
+	g.mutates = false
 	np, nr := g.r.Intn(4), g.r.Intn(4)
 	if g.r.Intn(2) == 0 {
 		nr = g.r.Intn(2)
@@ -721,7 +733,7 @@ func (g *gen) funcDef(globals []*vinfo) N {
 	for _, r := range results {
 		ra = append(ra, r)
 	}
-	g.funcs = append(g.funcs, fsig{name: name, params: ptys, results: results})
+	g.funcs = append(g.funcs, fsig{name: name, params: ptys, results: results, mutates: g.mutates})
 	return N{"k": "func", "name": name, "params": params, "results": ra, "body": body}
 }
 
